@@ -32,7 +32,15 @@ def build(spec, caps):
         n = spec["len"]
         body = pattern(max(n, 2), spec.get("seed", 0))
         pre = PREFIXES[spec["prefix"]] if spec["prefix"] in PREFIXES else bytes.fromhex(spec["prefix"])
-        return (pre + body[2:])[:n] if n >= 2 else (pre[:n])
+        d = bytearray((pre + body[2:])[:n] if n >= 2 else (pre[:n]))
+        if spec.get("header") and n >= 4:
+            d[2:4] = (n & 0xFFFF).to_bytes(2, "little")     # the frame's own length field agrees with its real length
+        if spec.get("model") and n >= 76:
+            d[74:76] = bytes.fromhex(spec["model"])
+        if spec.get("signed") and n >= 8:
+            from ..ref import crc
+            d[-4:] = crc.signature(bytes(d[:-4]))              # ... and it even carries a valid packet signature
+        return bytes(d)
     if k == "cut":
         cap = caps[spec["capture"] % len(caps)][1]
         d = spec["delta"]
@@ -116,7 +124,8 @@ def body_reject(rep, case, sub="reject"):
             continue
         datagrams.append((s, d))
         near = any(abs(len(d) - n) <= 3 for n in refb.ACCEPTED_LENGTHS)
-        rep.tick(sub, key=(s.get("kind"), len(d), d[:2].hex(), s.get("seed"), s.get("ext"), s.get("capture")), nontrivial=near or d[:2] == b"\xfe\xf0",
+        rep.tick(sub, key=(s.get("kind"), len(d), d[:2].hex(), s.get("seed"), s.get("ext"), s.get("capture"), s.get("header"), s.get("signed")),
+                 nontrivial=near or d[:2] == b"\xfe\xf0",
                  sample={"batch": [s]}, labels=(f"kind={s['kind']}", "magic" if d[:2] == b"\xfe\xf0" else "no-magic",
                                                 "accepted-length" if len(d) in refb.ACCEPTED_LENGTHS else "other-length"))
     if not datagrams:
@@ -175,6 +184,11 @@ def cases_lengths():
     for pre in ["magic", "f0fe", "fe00", "00f0", "fef1", "fff0"]:
         for lo in range(0, 401, 40):
             out.append({"batch": [{"kind": "len", "len": n, "prefix": pre, "seed": n * 7 + 1} for n in range(lo, min(lo + 40, 401))]})
+    # frames that look even more genuine: magic + header length field = real length (+ known model, + valid signature)
+    for lo in range(0, 401, 40):
+        out.append({"batch": [{"kind": "len", "len": n, "prefix": "magic", "seed": n * 3 + 2, "header": True,
+                               "model": ["01a8", "0e01", "0c01", "030f"][n % 4], "signed": n % 2 == 0}
+                              for n in range(lo, min(lo + 40, 401))]})
     ncap = len(refb.captures())
     cuts = [{"kind": "cut", "capture": c, "delta": d, "seed": c + 3} for c in range(ncap) for d in (-3, -2, -1, 1, 2, 3)]
     for i in range(0, len(cuts), 36):
@@ -194,9 +208,12 @@ def cases_lengths():
 
 def strat_reject():
     spec = st.one_of(
-        st.builds(lambda n, pre, seed: {"kind": "len", "len": n, "prefix": pre, "seed": seed},
+        st.builds(lambda n, pre, seed, hdr, sg, model: dict({"kind": "len", "len": n, "prefix": pre, "seed": seed},
+                                                             **({"header": True} if hdr else {}), **({"signed": True} if sg else {}),
+                                                             **({"model": model} if model else {})),
                   st.one_of(st.integers(0, 2048), st.sampled_from([0, 1, 2, 3, 158, 159, 160, 164, 165, 166, 167, 168, 169])),
-                  st.one_of(st.sampled_from(list(PREFIXES)), st.binary(min_size=2, max_size=2).map(bytes.hex)), st.integers(0, 10 ** 6)),
+                  st.one_of(st.sampled_from(list(PREFIXES)), st.binary(min_size=2, max_size=2).map(bytes.hex)), st.integers(0, 10 ** 6),
+                  st.booleans(), st.booleans(), st.sampled_from([None, "01a8", "0e01", "0c02"])),
         st.binary(max_size=300).map(lambda b: {"kind": "hex", "hex": b.hex()}),
         st.builds(lambda c, d, s: {"kind": "cut", "capture": c, "delta": d, "seed": s}, st.integers(0, 40),
                   st.sampled_from([-40, -3, -2, -1, 1, 2, 3, 40]), st.integers(0, 1000)),
@@ -211,6 +228,23 @@ def strat_unknown():
     spec = st.builds(lambda base, c, rb: {"kind": "unknown", "base": base, "code": f"{c:04x}", "random_body": rb},
                      st.integers(0, 5), code, st.one_of(st.just(0), st.integers(1, 10 ** 6)))
     return st.lists(spec, min_size=1, max_size=30).map(lambda b: {"batch": b})
+
+
+def cases_unknown_neighbours():
+    """Codes 'close' to the nine known ones: byte-swapped, +-1, every single-bit flip, each byte alone."""
+    codes = set()
+    for k in KNOWN:
+        v = int(k, 16)
+        codes.add(((v & 0xFF) << 8) | (v >> 8))
+        codes.update({(v + 1) & 0xFFFF, (v - 1) & 0xFFFF, v & 0xFF00, v & 0x00FF, (v & 0xFF) * 0x101, (v >> 8) * 0x101})
+        codes.update({v ^ (1 << b) for b in range(16)})
+    codes = sorted(c for c in codes if f"{c:04x}" not in KNOWN)
+    out = []
+    for base in range(6):
+        specs = [{"kind": "unknown", "base": base, "code": f"{c:04x}", "random_body": 0} for c in codes]
+        for i in range(0, len(specs), 40):
+            out.append({"batch": specs[i:i + 40]})
+    return out
 
 
 def cases_unknown_all():
@@ -231,6 +265,8 @@ def subchecks(tier):
     if big:
         subs.append(Sub("unknown-model-all-codes", lambda rep, case: body_unknown(rep, case, "unknown-model-all-codes"),
                         cases=cases_unknown_all, shards=16, exhaustive=True))
+    subs.append(Sub("unknown-model-neighbours", lambda rep, case: body_unknown(rep, case, "unknown-model-neighbours"),
+                    cases=cases_unknown_neighbours, shards=8, exhaustive=True))
     subs.append(Sub("unknown-model", body_unknown, strategy=strat_unknown, n=4000 if big else 300, shards=8 if big else 4,
                     shrink_budget=80))
     return subs
